@@ -495,6 +495,33 @@ func c14RunGob(args []string) Result {
 		return s + " re=" + hex.EncodeToString(re)
 	})
 	out += " dec=ok " + rest
+	// GobDecode "replaces the current contents" of its receiver: decoding into a Dawg that already holds another
+	// automaton (here: the words "", "a", "b") must give the same automaton as decoding into a fresh one.
+	reused := guard(func() string {
+		d3 := new(dawg.Dawg)
+		old, e := dawg.New([][]byte{{}, {'a'}, {'b'}})
+		if e != nil {
+			return "skip"
+		}
+		oldEnc, e := old.GobEncode()
+		if e != nil || d3.GobDecode(oldEnc) != nil {
+			return "skip"
+		}
+		if e := d3.GobDecode(enc); e != nil {
+			return "err"
+		}
+		re, e := d3.GobEncode()
+		if e != nil {
+			return "err"
+		}
+		if !bytes.Equal(re, enc) || c12Describe(d3, probes) != c12Describe(d2, probes) {
+			return "differs"
+		}
+		return "same"
+	})
+	if reused != "same" && reused != "skip" {
+		fail("GobDecode into a receiver that already held another automaton (words \"\", a, b) gives a different automaton than a fresh decode: " + reused)
+	}
 	if rest == "panic" {
 		fail("the decoded automaton panics when queried or encoded")
 		return Result{Out: out, Oracle: oracle, Tags: tags}
